@@ -19,6 +19,7 @@ func init() {
 	register(&Prop{ID: "C12", Draw: drawC12, Check: checkC12})
 	register(&Prop{ID: "C17", Draw: drawC17, Check: checkC17})
 	register(&Prop{ID: "C14", Draw: drawC02, Check: checkC14})
+	register(&Prop{ID: "C04", Draw: drawC02, Check: checkC04})
 }
 
 // lrOnce reports whether the grammar is free of left recursion or the reference
@@ -597,5 +598,43 @@ func checkC14(x *X, c *Case, strict bool) *Outcome {
 		}
 	}
 	o.Observe = fmt.Sprintf("ok=%v end=%d throws=%d handled=%d value=%s", ref.Ok, ref.End, ref.Stats.Throws, ref.Stats.ThrowsHandled, trunc(want, 160))
+	return o
+}
+
+// ---------------------------------------------------------------------------------
+// C04 (dynamic part): the generated package initialises and parses; without
+// -optimize-grammar and left recursion the blocks receive exactly the labels in scope
+// (the C02 trace comparison).
+
+func checkC04(x *X, c *Case, strict bool) *Outcome {
+	g := x.G.Spec
+	hasLR := false
+	for _, r := range g.Rules {
+		hasLR = hasLR || r.LR != nil
+	}
+	optg := false
+	for _, p := range livePkgs(x.G) {
+		optg = optg || p.OptGrammar
+	}
+	if !hasLR && !optg {
+		return checkC02(x, c, strict)
+	}
+	ref := refpeg.Eval(g, c.Input, refOpts(c))
+	if ref.OverBudget {
+		return &Outcome{Discard: true}
+	}
+	if ex := knownExclusion(x, ref, strict); ex != "" {
+		return &Outcome{Excluded: ex}
+	}
+	o := &Outcome{Tags: append(commonTags(c, ref), "run_only")}
+	o.Nontrivial = len(ref.Events) >= 2
+	for _, pk := range livePkgs(x.G) {
+		resp, _ := runReal(x, pk, c, safetyBudget(ref))
+		o.Evals++
+		if resp.Panicked {
+			o.Viol = viol(pk, c, "panic", fmt.Sprintf("Parse panicked: %v", resp.PanicVal), "", describeResp(resp))
+			return o
+		}
+	}
 	return o
 }
